@@ -587,6 +587,35 @@ def _module_source_from_table_action(m, table):
     return {"module": table[m.source_file_name]}
 
 
+def _check_constant_reference_is_not_a_type(expression, source_file_name, errors, ir):
+    """Reports constant references that name a type instead of a value."""
+    # `Foo.AB` is spelled like an enum value or a constant, but the name of the
+    # type generated for an inline field `a_b` is spelled the same way.
+    if expression.which_expression != "constant_reference":
+        return
+    reference = expression.constant_reference
+    if not reference.has_field("canonical_name"):
+        return
+    target = ir_util.find_object_or_none(reference.canonical_name, ir)
+    if isinstance(target, ir_data.TypeDefinition):
+        errors.append(
+            [
+                error.error(
+                    source_file_name,
+                    reference.source_location,
+                    "'{}' is a type, not a constant.".format(
+                        reference.source_name[-1].text
+                    ),
+                ),
+                error.note(
+                    reference.canonical_name.module_file,
+                    target.source_location,
+                    "'{}' defined here.".format(reference.source_name[-1].text),
+                ),
+            ]
+        )
+
+
 def _resolve_symbols_from_table(ir, table):
     """Resolves all references in the given IR, given the constructed table."""
     errors = []
@@ -628,6 +657,14 @@ def _resolve_symbols_from_table(ir, table):
             ir_data.Attribute: _set_visible_scopes_for_attribute,
         },
         parameters={"table": table, "errors": errors, "field": None},
+    )
+    if errors:
+        return errors
+    traverse_ir.fast_traverse_ir_top_down(
+        ir,
+        [ir_data.Expression],
+        _check_constant_reference_is_not_a_type,
+        parameters={"errors": errors},
     )
     return errors
 
